@@ -160,6 +160,8 @@ int32_t janetc_regalloc_temp(JanetcRegisterAllocator *ra, JanetcRegisterTemp nth
     ra->regtemps |= 1 << nth;
     int32_t reg = janetc_regalloc_1(ra);
     if (reg > 0xFF) {
+        /* Give the far register back: the reserved temporary is used instead */
+        janetc_regalloc_free(ra, reg);
         reg = 0xF0 + nth;
         ra->max = (reg > oldmax) ? reg : oldmax;
     }
